@@ -91,7 +91,10 @@ def parseAll (tgt : Tgt) : Handler := fun args impl =>
         | [s, sl, rd] =>
           let pos := [judgePos "str" bs s, judgePos "slice" bs sl, judgePos "reader" bs rd, judgeSources [s, sl, rd]]
           if tgt = .value then
-            ([judgeValue cfg "str" false bs s, judgeValue cfg "slice" true bs sl, judgeValue cfg "reader" true bs rd] ++ pos).filterMap id
+            let vs := [judgeValue cfg "str" false bs s, judgeValue cfg "slice" true bs sl, judgeValue cfg "reader" true bs rd].filterMap id
+            -- a single string literal: the same verdicts are also C05's (decode side)
+            let c05 := if (Spec.Rec.skipWs bs).head? == some 0x22 then vs.map fun m => "C05 string literal: " ++ m else []
+            vs ++ c05 ++ pos.filterMap id
           else ([judgeIgnored "str" bs s, judgeIgnored "slice" bs sl, judgeIgnored "reader" bs rd] ++ pos).filterMap id
         | _ => ["malformed observation"]
       { model := runAll cfg tgt bs, specs := specs }
